@@ -46,6 +46,11 @@ func tokensOf(v interface{}, sb *strings.Builder) {
 		}
 	case float64:
 		fmt.Fprintf(sb, " N%d:%v", int(x), strings.ReplaceAll(fmt.Sprint(x), " ", ""))
+	case json.Number:
+		fl, _ := x.Float64()
+		fmt.Fprintf(sb, " N%d:%s", int(fl), string(x))
+	case int:
+		fmt.Fprintf(sb, " N%d:%d", x, x)
 	case string:
 		sb.WriteString(" S" + hex.EncodeToString([]byte(x)))
 	case []interface{}:
